@@ -93,7 +93,8 @@ M = 10  # sample MAX_LENGTH used for boundary evaluation
 
 # methods the rules are written against; any other private method of these classes is a helper introduced later and is analysed as
 # if inlined at its call sites (sa.props._lib_d.Inliner / Views)
-KNOWN = {'protocols/basic.py': {'IntNStringReceiver': ['dataReceived', 'lengthLimitExceeded', 'sendString', 'stringReceived'],
+KNOWN = {'protocols/basic.py': {'<module>': ['_formatNetstring'],       # module-level functions the rules know by name
+                        'IntNStringReceiver': ['dataReceived', 'lengthLimitExceeded', 'sendString', 'stringReceived'],
                         'LineOnlyReceiver': ['dataReceived', 'lineLengthExceeded', 'lineReceived', 'sendLine'],
                         'LineReceiver': ['clearLineBuffer', 'dataReceived', 'lineLengthExceeded', 'lineReceived', 'rawDataReceived', 'sendLine', 'setLineMode', 'setRawMode'],
                         'NetstringReceiver': ['_checkForTrailingComma', '_checkPartialLengthSpecification', '_checkStringSize', '_consumeData', '_consumeLength', '_consumePayload',
@@ -179,11 +180,20 @@ def _all_decided(ctx, g, facts, var, rule, c, srcs=None, avoid=()):
     is made by a helper the normaliser did not read through, say - following both outcomes would 'find' a wrong delivery on the branch that cannot
     be taken: the point is not decided here (note), the evaluated framing rules run the code instead."""
     core = re.sub(r"^len\((.*)\)$", r"\1", var).split(".")[-1]
-    und = [t for t in undecided_tests(g, facts, srcs=srcs, avoid=avoid) if re.search(r"(?<![\w])" + re.escape(core) + r"(?![\w])", src(g.node(t).ast))]
+    und = [t for t in undecided_tests(g, facts, srcs=srcs, avoid=avoid)
+           if re.search(r"(?<![\w])" + re.escape(core) + r"(?![\w])", src(g.node(t).ast) + " " + src(resolve_locals(g.func, g.node(t).ast)))]
     if und:
         ctx.note(f"{rule}: not decided for {c}: the test {src(g.node(und[0]).ast)[:80]!r} reads {var} in a form that could not be evaluated")
         return False
     return True
+
+
+def _bcheck(ctx, dec, cond, rule, c, msg, witness=""):
+    """ctx.check for a boundary point; a failing verdict is only recorded when the facts of the point decided every test that reads the quantity"""
+    g, facts, var, srcs, avoid = dec
+    if not cond and not _all_decided(ctx, g, facts, var, rule, c, srcs=srcs, avoid=avoid):
+        return
+    ctx.check(cond, rule, c, msg, witness=witness)
 
 
 def _line_only(ctx):
@@ -208,32 +218,30 @@ def _line_only(ctx):
     for L, ok_len in ((M - 1, True), (M, True), (M + 1, False)):
         facts = {f"len({lv})": L, "self.MAX_LENGTH": M, "self.transport.disconnecting": False}
         c = q + f" | <complete line of MAX_LENGTH{L - M:+d} bytes>"
-        if not _all_decided(ctx, g, facts, f"len({lv})", r_cb, c, srcs=body, avoid=[head]):
-            continue
+        dec = (g, facts, f"len({lv})", body, [head])
         R = reach_under(g, facts, srcs=body, avoid=[head])
         if ok_len:
             w = must_pass_under(g, facts, deliver, srcs=body, to=[g.exit, head])
-            ctx.check(w is None and not (R & set(ex_line)), r_cb, c,
+            _bcheck(ctx, dec, w is None and not (R & set(ex_line)), r_cb, c,
                       "a complete line within MAX_LENGTH is rejected (or not delivered)", witness=g.describe(w))
         else:
             w = must_pass_under(g, facts, ex_line, srcs=body, to=[g.exit, head])
-            ctx.check(w is None and not (R & set(deliver)), r_cb, c,
+            _bcheck(ctx, dec, w is None and not (R & set(deliver)), r_cb, c,
                       "a complete line longer than MAX_LENGTH is delivered (or not reported)", witness=g.describe(w))
     tail = succ_of(g, head, "done")
     for Bn, legit in ((M, True), (M + 1, True), (M + 2, False)):
         facts = {"len(self._buffer)": Bn, "self.MAX_LENGTH": M, "len(self.delimiter)": 2}
         c = q + f" | <pending buffer of MAX_LENGTH{Bn - M:+d} bytes, 2-byte delimiter>"
-        if not _all_decided(ctx, g, facts, "len(self._buffer)", r_pb, c, srcs=tail):
-            continue
+        dec = (g, facts, "len(self._buffer)", tail, ())
         R = reach_under(g, facts, srcs=tail)
         if legit:
-            ctx.check(not (R & set(ex_buf)), r_pb, c,
+            _bcheck(ctx, dec, not (R & set(ex_buf)), r_pb, c,
                       "an unterminated buffer that may still be a line of MAX_LENGTH bytes plus the first byte(s) of the delimiter is "
                       "rejected: the same line is accepted when its delimiter arrives in the same segment",
                       witness=g.describe(path_under(g, facts, ex_buf, srcs=tail)))
         else:
             w = must_pass_under(g, facts, ex_buf, srcs=tail)
-            ctx.check(w is None, r_pb, c, "a buffer that can no longer become a legal line is not rejected", witness=g.describe(w))
+            _bcheck(ctx, dec, w is None, r_pb, c, "a buffer that can no longer become a legal line is not rejected", witness=g.describe(w))
     # the pending piece is stored before the complete lines are handed out.  WHICH bytes are kept and in which order old and new
     # data are joined is decided by evaluation (line-only/reference-framing, line-only/segmentation-invariant), not by the
     # shape of the split / pop / slice / starred unpacking that computes it.
@@ -301,17 +309,16 @@ def _line_receiver(ctx):
     for L, ok_len in ((M - 1, True), (M, True), (M + 1, False)):
         facts = {f"len({lv})": L, "self.MAX_LENGTH": M}
         c = q + f" | <complete line of MAX_LENGTH{L - M:+d} bytes>"
-        if not _all_decided(ctx, g, facts, f"len({lv})", r_cb, c, srcs=after, avoid=[sp]):
-            continue
+        dec = (g, facts, f"len({lv})", after, [sp])
         R = reach_under(g, facts, srcs=after, avoid=[sp])
         exn = [n for n, _ in exc_cb]
         if ok_len:
             w = must_pass_under(g, facts, deliver, srcs=after, to=[g.exit, sp])
-            ctx.check(w is None and not (R & set(exn)), r_cb, c, "a complete line within MAX_LENGTH is rejected (or not delivered)",
+            _bcheck(ctx, dec, w is None and not (R & set(exn)), r_cb, c, "a complete line within MAX_LENGTH is rejected (or not delivered)",
                       witness=g.describe(w))
         else:
             w = must_pass_under(g, facts, exn, srcs=after, to=[g.exit, sp])
-            ctx.check(w is None and not (R & set(deliver)), r_cb, c, "a complete line longer than MAX_LENGTH is delivered (or not reported)",
+            _bcheck(ctx, dec, w is None and not (R & set(deliver)), r_cb, c, "a complete line longer than MAX_LENGTH is delivered (or not reported)",
                       witness=g.describe(w))
     hs = [h for h in succ_of(g, sp, "exc") if g.node(h).kind == "handler"]
     ctx.need(hs, "handler for 'no delimiter in the buffer'")
@@ -319,18 +326,17 @@ def _line_receiver(ctx):
     for Bn, legit in ((M, True), (M + 1, True), (M + 2, False)):
         facts = {"len(self._buffer)": Bn, "self.MAX_LENGTH": M, "len(self.delimiter)": 2}
         c = q + f" | <pending buffer of MAX_LENGTH{Bn - M:+d} bytes, 2-byte delimiter>"
-        if not _all_decided(ctx, g, facts, "len(self._buffer)", r_pb, c, srcs=hs, avoid=[sp]):
-            continue
+        dec = (g, facts, "len(self._buffer)", hs, [sp])
         R = reach_under(g, facts, srcs=hs, avoid=[sp])
         exn = [n for n, _ in exc_cb]
         if legit:
-            ctx.check(not (R & set(exn)), r_pb, c,
+            _bcheck(ctx, dec, not (R & set(exn)), r_pb, c,
                       "an unterminated buffer that may still be a legal line plus a partial delimiter is rejected",
                       witness=g.describe(path_under(g, facts, exn, srcs=hs, avoid=[sp])))
             ctx.check(not (R & set(writes)), "line/pending-kept", c, "the unterminated buffer is modified while waiting for its delimiter")
         else:
             w = must_pass_under(g, facts, exn, srcs=hs, to=[g.exit, sp])
-            ctx.check(w is None, r_pb, c, "a buffer that can no longer become a legal line is not rejected", witness=g.describe(w))
+            _bcheck(ctx, dec, w is None, r_pb, c, "a buffer that can no longer become a legal line is not rejected", witness=g.describe(w))
     # buffer cleared / swapped before call-outs that may re-enter
     clears = [n for n in writes if any(const_value_is(v, lambda x: x == b"") for v in
                                        ([g.node(n).ast.value] if not isinstance(g.node(n).ast.value, ast.Tuple) else g.node(n).ast.value.elts))]
@@ -436,15 +442,14 @@ def _intn(ctx):
     for L, ok_len in ((M - 1, True), (M, True), (M + 1, False)):
         facts = {lvar: L, "self.MAX_LENGTH": M}
         c = q + f" | <announced length MAX_LENGTH{L - M:+d}>"
-        if not _all_decided(ctx, g, facts, lvar, r_lb, c, srcs=after, avoid=[head]):
-            continue
+        dec = (g, facts, lvar, after, [head])
         R = reach_under(g, facts, srcs=after, avoid=[head])
         if ok_len:
-            ctx.check(not (R & set(en)), r_lb, c, "a string within MAX_LENGTH is refused",
+            _bcheck(ctx, dec, not (R & set(en)), r_lb, c, "a string within MAX_LENGTH is refused",
                       witness=g.describe(path_under(g, facts, en, srcs=after, avoid=[head])))
         else:
             w = must_pass_under(g, facts, en, srcs=after, to=[g.exit, head])
-            ctx.check(w is None and not (R & set(dn)), r_lb, c, "a string longer than MAX_LENGTH is delivered (or not reported)",
+            _bcheck(ctx, dec, w is None and not (R & set(dn)), r_lb, c, "a string longer than MAX_LENGTH is delivered (or not reported)",
                       witness=g.describe(w))
             R2 = reach_under(g, facts, srcs=[s for e in en for s in succ_of(g, e, None)])
             ctx.check(not (R2 & (set(dn) | {un})), "intn/stops-after-limit", c, "parsing continues after lengthLimitExceeded in the same delivery")
@@ -591,14 +596,13 @@ def _intn(ctx):
             for n_, fits in ((lim - 1, True), (lim, False)):
                 facts = {f"len({sparam})": n_, "self.prefixLength": pl}
                 c = qs + f" | <{n_} bytes, prefixLength {pl}>"
-                if not _all_decided(ctx, gs, facts, f"len({sparam})", r_sl, c):
-                    continue
+                dec = (gs, facts, f"len({sparam})", None, ())
                 R = reach_under(gs, facts)
                 if fits:
                     w = must_pass_under(gs, facts, [n for n, _ in wr])
-                    ctx.check(w is None and not (R & set(rz)), r_sl, c, "a string whose length fits the prefix is refused", witness=gs.describe(w))
+                    _bcheck(ctx, dec, w is None and not (R & set(rz)), r_sl, c, "a string whose length fits the prefix is refused", witness=gs.describe(w))
                 else:
-                    ctx.check(not (R & {n for n, _ in wr}) and bool(R & set(rz)), r_sl, c,
+                    _bcheck(ctx, dec, not (R & {n for n, _ in wr}) and bool(R & set(rz)), r_sl, c,
                               "a string whose length does not fit the prefix is sent (the prefix wraps around / struct.error instead of StringTooLongError)")
         for n, call in wr:
             a = call.args[0] if call.args else None
@@ -681,13 +685,12 @@ def _netstring(ctx):
         for L, ok_len in ((M - 1, True), (M, True), (M + 1, False)):
             facts = {p: str(L).encode(), "self.MAX_LENGTH": M}
             c = q + f" | <length MAX_LENGTH{L - M:+d}>"
-            if not _all_decided(ctx, g, facts, "length", r_nl, c):
-                continue
+            dec = (g, facts, "length", None, ())
             R = reach_under(g, facts)
             if ok_len:
-                ctx.check(not (R & set(rz)) and g.exit in R, r_nl, c, "a netstring within MAX_LENGTH is refused")
+                _bcheck(ctx, dec, not (R & set(rz)) and g.exit in R, r_nl, c, "a netstring within MAX_LENGTH is refused")
             else:
-                ctx.check(bool(R & set(rz)) and g.exit not in R, r_nl, c, "a netstring longer than MAX_LENGTH is accepted")
+                _bcheck(ctx, dec, bool(R & set(rz)) and g.exit not in R, r_nl, c, "a netstring longer than MAX_LENGTH is accepted")
         rets = [x for x in walk_local(f) if isinstance(x, ast.Return) and x.value is not None]
         ctx.check(len(rets) == 1 and test_value(ast.Compare(left=rets[0].value, ops=[ast.Eq()], comparators=[ast.Constant(7)]), {"length": 7, p: b"7"}) is True
                   if rets else False, "netstring/length-value", q, "_extractLength does not return the decimal value of the length field")
@@ -1284,6 +1287,10 @@ def _check(ctx):
 
 _LO = "        if len(self._buffer) >= (self.MAX_LENGTH + len(self.delimiter)):\n            return self.lineLengthExceeded(self._buffer)\n"
 MUTANTS = [
+    Mutant("line-busy-flag-context-manager-forgets-to-clear-it", B,
+           '        try:\n            self._busyReceiving = True\n            self._buffer += data\n            while self._buffer and not self.paused:\n                if self.line_mode:\n                    try:\n                        line, self._buffer = self._buffer.split(self.delimiter, 1)\n                    except ValueError:\n                        if len(self._buffer) >= (self.MAX_LENGTH + len(self.delimiter)):\n                            line, self._buffer = self._buffer, b""\n                            return self.lineLengthExceeded(line)\n                        return\n                    else:\n                        lineLength = len(line)\n                        if lineLength > self.MAX_LENGTH:\n                            exceeded = line + self.delimiter + self._buffer\n                            self._buffer = b""\n                            return self.lineLengthExceeded(exceeded)\n                        why = self.lineReceived(line)\n                        if why or self.transport and self.transport.disconnecting:\n                            return why\n                else:\n                    data = self._buffer\n                    self._buffer = b""\n                    why = self.rawDataReceived(data)\n                    if why:\n                        return why\n        finally:\n            self._busyReceiving = False\n',
+           '        with _Receiving(self):\n            self._buffer += data\n            while self._buffer and not self.paused:\n                if self.line_mode:\n                    try:\n                        line, self._buffer = self._buffer.split(self.delimiter, 1)\n                    except ValueError:\n                        if len(self._buffer) >= (self.MAX_LENGTH + len(self.delimiter)):\n                            line, self._buffer = self._buffer, b""\n                            return self.lineLengthExceeded(line)\n                        return\n                    else:\n                        lineLength = len(line)\n                        if lineLength > self.MAX_LENGTH:\n                            exceeded = line + self.delimiter + self._buffer\n                            self._buffer = b""\n                            return self.lineLengthExceeded(exceeded)\n                        why = self.lineReceived(line)\n                        if why or self.transport and self.transport.disconnecting:\n                            return why\n                else:\n                    data = self._buffer\n                    self._buffer = b""\n                    why = self.rawDataReceived(data)\n                    if why:\n                        return why\n',
+           more=[(B, "class LineReceiver(protocol.Protocol, _PauseableMixin):", 'class _Receiving:\n    __slots__ = ("_receiver",)\n\n    def __init__(self, receiver):\n        self._receiver = receiver\n\n    def __enter__(self):\n        self._receiver._busyReceiving = True\n\n    def __exit__(self, excType, excValue, traceback):\n        pass\n\n\nclass LineReceiver(protocol.Protocol, _PauseableMixin):')]),
     Mutant("F16-reverted-pending-threshold", B, _LO, "        if len(self._buffer) > self.MAX_LENGTH:\n            return self.lineLengthExceeded(self._buffer)\n",
            expect_rule="line-only/pending-boundary"),
     Mutant("line-only-complete-ge", B, "            if len(line) > self.MAX_LENGTH:\n                return self.lineLengthExceeded(line)\n",
@@ -1391,12 +1398,9 @@ MUTANTS = [
 ]
 SILENT = [
     Silent("line-busy-flag-through-a-context-manager-class", B,
-           "        try:\n            self._busyReceiving = True\n            self._buffer += data\n            while self._buffer and not self.paused:\n",
-           "        with _Receiving(self):\n            self._buffer += data\n            while self._buffer and not self.paused:\n",
-           more=[(B, "                    if why:\n                        return why\n        finally:\n            self._busyReceiving = False\n", "                    if why:\n                        return why\n"),
-                 (B, "class LineReceiver(protocol.Protocol, _PauseableMixin):", "class _Receiving:\n    __slots__ = (\"_receiver\",)\n\n    def __init__(self, receiver):\n        self._receiver = receiver\n\n"
-                  "    def __enter__(self):\n        self._receiver._busyReceiving = True\n\n    def __exit__(self, excType, excValue, traceback):\n        self._receiver._busyReceiving = False\n\n\n"
-                  "class LineReceiver(protocol.Protocol, _PauseableMixin):")]),
+           '        try:\n            self._busyReceiving = True\n            self._buffer += data\n            while self._buffer and not self.paused:\n                if self.line_mode:\n                    try:\n                        line, self._buffer = self._buffer.split(self.delimiter, 1)\n                    except ValueError:\n                        if len(self._buffer) >= (self.MAX_LENGTH + len(self.delimiter)):\n                            line, self._buffer = self._buffer, b""\n                            return self.lineLengthExceeded(line)\n                        return\n                    else:\n                        lineLength = len(line)\n                        if lineLength > self.MAX_LENGTH:\n                            exceeded = line + self.delimiter + self._buffer\n                            self._buffer = b""\n                            return self.lineLengthExceeded(exceeded)\n                        why = self.lineReceived(line)\n                        if why or self.transport and self.transport.disconnecting:\n                            return why\n                else:\n                    data = self._buffer\n                    self._buffer = b""\n                    why = self.rawDataReceived(data)\n                    if why:\n                        return why\n        finally:\n            self._busyReceiving = False\n',
+           '        with _Receiving(self):\n            self._buffer += data\n            while self._buffer and not self.paused:\n                if self.line_mode:\n                    try:\n                        line, self._buffer = self._buffer.split(self.delimiter, 1)\n                    except ValueError:\n                        if len(self._buffer) >= (self.MAX_LENGTH + len(self.delimiter)):\n                            line, self._buffer = self._buffer, b""\n                            return self.lineLengthExceeded(line)\n                        return\n                    else:\n                        lineLength = len(line)\n                        if lineLength > self.MAX_LENGTH:\n                            exceeded = line + self.delimiter + self._buffer\n                            self._buffer = b""\n                            return self.lineLengthExceeded(exceeded)\n                        why = self.lineReceived(line)\n                        if why or self.transport and self.transport.disconnecting:\n                            return why\n                else:\n                    data = self._buffer\n                    self._buffer = b""\n                    why = self.rawDataReceived(data)\n                    if why:\n                        return why\n',
+           more=[(B, "class LineReceiver(protocol.Protocol, _PauseableMixin):", 'class _Receiving:\n    __slots__ = ("_receiver",)\n\n    def __init__(self, receiver):\n        self._receiver = receiver\n\n    def __enter__(self):\n        self._receiver._busyReceiving = True\n\n    def __exit__(self, excType, excValue, traceback):\n        self._receiver._busyReceiving = False\n\n\nclass LineReceiver(protocol.Protocol, _PauseableMixin):')]),
     Silent("line-only-lines-from-a-generator-helper", B,
            "        lines = (self._buffer + data).split(self.delimiter)\n        self._buffer = lines.pop(-1)\n        for line in lines:\n            if self.transport.disconnecting:\n",
            "        for line in self._completeLines(data):\n            if self.transport.disconnecting:\n",
